@@ -329,6 +329,8 @@ def run_relay(case):
             # what was consumed
             if up is not None and isinstance(ev.get('u_recv'), (bytes, bytearray)) and ev['u_recv'] and not up.inq:
                 uprcvd += bytes(ev['u_recv'])          # the scripted piece was taken by a recv() call
+            c_taken = ev.get('c_recv') is not None and not S.client.inq
+            u_taken = up is not None and ev.get('u_recv') is not None and not up.inq
             if took_c and S.client.inq:
                 client_plan.insert(0, ev['c_recv'])
             if took_u and up is not None and up.inq:
@@ -390,6 +392,7 @@ def run_relay(case):
                               upend=sum(len(b) for b in u.buffer) if u is not None else 0,
                               la=round(getattr(h, 'last_activity', case.get('t0', T0) / TICK) * TICK),
                               inactive=inactive, uprcvd_len=len(uprcvd), clrcvd_len=len(clrcvd),
+                              c_taken=c_taken, u_taken=u_taken,
                               established=bool(S.upstreams)))
             final_res = res
             if res:
@@ -621,7 +624,7 @@ def gen_relay(rng, profile='relay', n_events=None, max_send=None, handler=None):
     elif ending == 'up-reset':
         up_plan.append(rng.choice(['reset', 'oserror']))
     elif ending == 'up-timeout':
-        up_plan.append(rng.choice(['timeout', 'timeout0']))
+        up_plan.append(rng.choice(['timeout', 'timeout0']) if profile != 'teardown' else 'timeout')
     elif ending == 'client-eof':
         client_plan.append('eof')
     elif ending == 'client-reset':
